@@ -26,7 +26,19 @@ def term_decl(i, kind, body, prio, prefer, mark):
     return f"T{i}: {b}" + (" {" + ", ".join(meta) + "}" if meta else "") + ";"
 
 
-def matcher(kind, body, ignore_case):
+def matcher(kind, body, ignore_case, keyword=False):
+    if kind == "str" and keyword and re.fullmatch(r"\w+", body):
+        # grammar with KEYWORD: /\w+/ -- the string terminal matches only as a whole word
+        def kw(t, p, n=len(body)):
+            seg = t[p:p + n]
+            if not (seg == body or (ignore_case and seg.lower() == body.lower())):
+                return None
+            if p > 0 and re.match(r"\w", t[p - 1]):
+                return None
+            if p + n < len(t) and re.match(r"\w", t[p + n]):
+                return None
+            return seg
+        return kw
     if kind == "str":
         if ignore_case:
             return lambda t, p: body if t[p:p + len(body)].lower() == body.lower() else None
@@ -41,7 +53,8 @@ def matcher(kind, body, ignore_case):
 
 def lex_worker(args):
     pid, case, params = args
-    cands, shape, ignore_case = case
+    cands, shape, ignore_case = case[:3]
+    keyword = len(case) > 3 and bool(case[3])
     res = {"evaluations": 0, "nontrivial": 0, "violations": [], "samples": [], "counters": {}}
     n = len(cands)
     decls = [term_decl(i, *c) for i, c in enumerate(cands)]
@@ -55,13 +68,13 @@ def lex_worker(args):
         decls.append("X: 'x';")
         expected = list(range(n - 1))
         prefix = "x"
-    text = rule + "\nterminals\n" + "\n".join(decls)
+    text = rule + "\nterminals\n" + "\n".join(decls) + ("\nKEYWORD: /\\w+/;" if keyword else "")
     only = params.get("only")
 
     def viol(mon, inp, detail):
         res["violations"].append((mon, {"grammar": text, "input": inp, "ignore_case": ignore_case}, detail,
                                   {"family": "generic", "module": "vlib.monitors.lexmon", "function": "replay",
-                                   "case": [[list(c) for c in cands], shape, ignore_case],
+                                   "case": [[list(c) for c in cands], shape, ignore_case, keyword],
                                    "params": {k: v for k, v in params.items() if k != "only"}}))
     try:
         g = Grammar.from_string(text, ignore_case=ignore_case)
@@ -70,8 +83,8 @@ def lex_worker(args):
     except Exception as e:  # noqa
         viol("lex.constructs", None, exc_str(e))
         return res
-    ms = [matcher(c[0], c[1], ignore_case) for c in cands]
-    alphabet = params["alphabet"] + (params["alphabet"].upper() if ignore_case else "")
+    ms = [matcher(c[0], c[1], ignore_case, keyword) for c in cands]
+    alphabet = params["alphabet"] + (params["alphabet"].upper() if ignore_case else "") + ("-" if keyword else "")
     for L in range(1, params["max_len"] + 1):
         for w in itertools.product(alphabet, repeat=L):
             inp = prefix + "".join(w)
@@ -130,7 +143,7 @@ def replay(case, key):
     c = case["case"]
     params = dict(case["params"])
     params["only"] = key
-    return lex_worker(("C07", (tuple(tuple(x) for x in c[0]), c[1], c[2]), params))
+    return lex_worker(("C07", (tuple(tuple(x) for x in c[0]), c[1], c[2]) + tuple(c[3:4]), params))
 
 
 def cases(tier):
@@ -161,4 +174,16 @@ def cases(tier):
                     if shape == "prefixed" and k < 3:
                         shape = "flat"
                     out.append((cands, shape, idx % 5 == 0))
+    # grammars with a KEYWORD terminal: word-like string terminals become keyword (regex) recognisers that must
+    # keep the rank of strings; one string and one regex, both declaration orders (the order decides ties between
+    # equally ranked candidates), all priorities, prefer on either
+    for (ks, bs), (kr, br) in itertools.product([p for p in POOL if p[0] == "str"], [p for p in POOL if p[0] == "regex"]):
+        for pr in itertools.product(prios, repeat=2):
+            for prefer in ((False, False), (True, False), (False, True)):
+                idx += 1
+                if tier == "quick" and idx % 2:
+                    continue
+                pair = [(ks, bs, pr[0], prefer[0], None), (kr, br, pr[1], prefer[1], None)]
+                for cands in (tuple(pair), tuple(reversed(pair))):
+                    out.append((cands, "flat", idx % 4 == 0, True))
     return out
